@@ -296,23 +296,31 @@ Realloc(s, n, ret) ==
     {Outcome([s EXCEPT !.b = CapToBuckets(n), !.t = 0], ret, <<>>, {}, 0,
              2 + Len(s.ord), FALSE, TRUE)}
 
-(* reserve panics on overflow (documented); nothing may change then *)
+(* reserve panics on overflow (documented); nothing may change then.  All   *)
+(* capacity operations may hash every held entry once, whether or not they  *)
+(* end up replacing the table (C20 bounds them by operation, not outcome).  *)
 ApplyReserve(s, n) ==
-    IF IsBig(n) THEN Same(s, RTag("panic"), 2)
+    IF IsBig(n) THEN Same(s, RTag("panic"), 2 + Len(s.ord))
     ELSE IF Cap(s) < Len(s.ord) + n THEN Realloc(s, Len(s.ord) + n, RTag("unit"))
-    ELSE Same(s, RTag("unit"), 2)
+    ELSE Same(s, RTag("unit"), 2 + Len(s.ord))
 
-(* fail: the allocator refuses the table allocation, if one is attempted *)
+(* fail: the allocator refuses every allocation attempted during the call.  *)
+(* A request that cannot be represented fails with CapacityOverflow; if the *)
+(* allocator refuses as well, either error may be reported (C13 only        *)
+(* demands that a failing try_reserve changes nothing).                     *)
 ApplyTryReserve(s, n, fail) ==
-    IF IsBig(n) THEN Same(s, RTag("CapacityOverflow"), 2)
+    IF IsBig(n)
+    THEN Same(s, RTag("CapacityOverflow"), 2 + Len(s.ord))
+         \cup (IF fail THEN Same(s, RTag("AllocError"), 2 + Len(s.ord)) ELSE {})
     ELSE IF Cap(s) < Len(s.ord) + n
-    THEN (IF fail THEN Same(s, RTag("AllocError"), 2)
+    THEN (IF fail THEN Same(s, RTag("AllocError"), 2 + Len(s.ord))
                   ELSE Realloc(s, Len(s.ord) + n, RTag("Ok")))
-    ELSE Same(s, RTag("Ok"), 2)
+    ELSE Same(s, RTag("Ok"), 2 + Len(s.ord))
 
 ApplyShrinkTo(s, n) ==
     LET nc == UMax2(Len(s.ord), n) IN
-    IF UGt(Cap(s), nc) THEN Realloc(s, nc, RTag("unit")) ELSE Same(s, RTag("unit"), 2)
+    IF UGt(Cap(s), nc) THEN Realloc(s, nc, RTag("unit"))
+    ELSE Same(s, RTag("unit"), 2 + Len(s.ord))
 
 ApplyScalar(s, what) ==
     Same(s, CASE what = "len"          -> RInt(Len(s.ord))
@@ -439,7 +447,7 @@ NoHashOps    == {"peek_lru", "peek_mru", "clear", "debug"} \cup IterKinds
 (***************************************************************************)
 
 Present(s, k)  == k \in KeysOf(s.ord)
-EntOf(s, k)    == s.ord[Pos(s.ord, k)]
+EntOf(s, k)    == IF Pos(s.ord, k) = 0 THEN Ent(k, -1, -1, -1) ELSE s.ord[Pos(s.ord, k)]
 Rel(o, K)      == SelectSeq(KeySeq(o), LAMBDA k : k \in K)
 RevSeq(q)      == [i \in 1..Len(q) |-> q[Len(q) + 1 - i]]
 Succeeded(a, x) == x.ret.tag \in {"OkNone", "OkSome", "Ok", "unit", "Some", "int",
